@@ -35,6 +35,9 @@ func isAdjacency(c *Check, v ssa.Value, depth int) bool {
 	}
 	switch x := v.(type) {
 	case *ssa.Lookup:
+		if isEdgeMapType(x.X.Type()) {
+			return true // any map label -> []BuildNode is an adjacency map (the edge maps handed to a helper)
+		}
 		return isLoadOfField(x.X, fInEdges) || isLoadOfField(x.X, fOutEdges) || isAdjacency(c, x.X, depth+1)
 	case *ssa.Call:
 		for _, f := range c.G.Callees[x] {
@@ -70,6 +73,16 @@ func isAdjacency(c *Check, v ssa.Value, depth int) bool {
 	return false
 }
 
+// isEdgeMapType: map[label.TargetLabel][]model.BuildNode
+func isEdgeMapType(t types.Type) bool {
+	m, ok := t.Underlying().(*types.Map)
+	if !ok || engine.TypeKey(m.Key()) != "label.TargetLabel" {
+		return false
+	}
+	sl, ok := m.Elem().Underlying().(*types.Slice)
+	return ok && engine.TypeKey(sl.Elem()) == "model.BuildNode"
+}
+
 func returnsNodeSlice(f *ssa.Function) bool {
 	res := f.Signature.Results()
 	for i := 0; i < res.Len(); i++ {
@@ -88,7 +101,7 @@ func neverSeenAtom(c *Check, a engine.Atom) (ssa.Value, bool) {
 	markOf := func(v ssa.Value) (ssa.Value, bool) {
 		switch x := v.(type) {
 		case *ssa.Lookup:
-			if isLoadOfField(x.X, fInEdges) || isLoadOfField(x.X, fOutEdges) {
+			if isLoadOfField(x.X, fInEdges) || isLoadOfField(x.X, fOutEdges) || isEdgeMapType(x.X.Type()) {
 				return nil, false
 			}
 			if _, isMap := x.X.Type().Underlying().(*types.Map); isMap {
@@ -255,7 +268,7 @@ func intersects(a, b map[ssa.Value]bool) bool {
 }
 
 func ruleTraversals(c *Check, rule string, onlyDupFree bool) {
-	c.Rule(rule, "each recursive call / worklist push in a loop over graph adjacency is reachable (within the loop body, for worklists within the pop iteration) only through a 'never seen' branch of a per-node mark, and that mark is set on every path (before the descent, or after it on every path to return)", map[bool]int{true: 4, false: 6}[onlyDupFree])
+	c.Rule(rule, "each recursive call / worklist push in a loop over graph adjacency is reachable (within the loop body, for worklists within the pop iteration) only through a 'never seen' branch of a per-node mark, and that mark is set on every path (before the descent, or after it on every path to return)", map[bool]int{true: 3, false: 6}[onlyDupFree])
 	tabled := map[string]string{
 		"cmd/cmds.buildTree": "renders the dependency *tree* for `grog graph -o tree`: one line per path is the output format, not a graph algorithm named by the property",
 		"cmd/cmds.printTree": "tree rendering for `grog graph`, see buildTree",
